@@ -3,6 +3,8 @@ package props
 import (
 	"fmt"
 	"os"
+	"strconv"
+	"strings"
 	"time"
 
 	"github.com/jotaen/klog/klog/app/cli"
@@ -119,6 +121,16 @@ func runC15(e *core.Env) {
 			e.Evals(c15FillWalks(e, wy, agg))
 			e.End(i)
 		}
+	}
+	// every pattern of the window years as `--period` of `total` and `report`: it selects exactly the days of the period
+	for wi, wy := range wins {
+		i := int64(len(years) + 2 + len(wins)*5 + wi)
+		if !e.Mine(i) {
+			continue
+		}
+		e.Begin(i, []byte(fmt.Sprintf("--period through total and report, window %04d", wy)))
+		e.Evals(c15PeriodViews(e, wy))
+		e.End(i)
 	}
 	for idx, y := range years {
 		i := int64(idx)
@@ -300,6 +312,137 @@ func c15FillWalks(e *core.Env, wy int, agg string) int64 {
 		if (d0-first)%50 == 0 {
 			e.Nontrivial(core.Hash64("c15fill", agg, a.String()))
 		}
+	}
+	return n
+}
+
+// c15PeriodViews: for every year, quarter, month and week pattern of the 4-year window starting at wy, a file with one
+// record on each of the nine days before the period, its first two and last two days and the nine days after it;
+// `klog total --period P` and `klog report --aggregate a --period P` (all five aggregations) must count exactly the
+// records inside the period, and the report's rows must be the buckets of those dates.
+func c15PeriodViews(e *core.Env, wy int) int64 {
+	var n int64
+	type pat struct {
+		text         string
+		since, until int
+	}
+	var pats []pat
+	seen := map[string]bool{}
+	add := func(text string, kind ref.PeriodKind, d ref.Date) {
+		if seen[text] {
+			return
+		}
+		seen[text] = true
+		s, u := ref.PeriodBounds(kind, d)
+		pats = append(pats, pat{text, s, u})
+	}
+	first := ref.DaysFromCivil(wy, 1, 1)
+	for dd := first; dd < first+1461 && dd <= ref.MaxDay; dd++ {
+		d := ref.DateFromDays(dd)
+		add(fmt.Sprintf("%04d", d.Y), ref.PYear, d)
+		add(fmt.Sprintf("%04d-Q%d", d.Y, ref.Quarter(d.M)), ref.PQuarter, d)
+		add(fmt.Sprintf("%04d-%02d", d.Y, d.M), ref.PMonth, d)
+		if wyr, ww := ref.ISOWeek(d.Y, d.M, d.D); wyr >= 0 && wyr <= 9999 {
+			add(fmt.Sprintf("%04d-W%02d", wyr, ww), ref.PWeek, d)
+		}
+	}
+	file := e.Dir + "/c15period.klg"
+	clock := time.Date(2024, 5, 5, 12, 0, 0, 0, time.UTC)
+	bad := 0
+	for _, p := range pats {
+		if bad >= 3 {
+			break
+		}
+		if p.since-10 < ref.MinDay || p.until+10 > ref.MaxDay {
+			continue
+		}
+		var days []int
+		for k := p.since - 9; k <= p.since+1; k++ {
+			days = append(days, k)
+		}
+		for k := p.until - 1; k <= p.until+9; k++ {
+			if k > p.since+1 {
+				days = append(days, k)
+			}
+		}
+		var sb strings.Builder
+		want := 0
+		var inDays []int
+		for k, dd := range days {
+			mins := 1 << uint(k) // every subset of the records has its own sum
+			fmt.Fprintf(&sb, "%s\n    %dm\n\n", ref.DateFromDays(dd), mins)
+			if dd >= p.since && dd <= p.until {
+				want += mins
+				inDays = append(inDays, dd)
+			}
+		}
+		text := sb.String()
+		if err := os.WriteFile(file, []byte(text), 0644); err != nil {
+			panic(err)
+		}
+		fa, _, ok := buildFilterArgs(query{Period: p.text, PeriodSince: p.since, PeriodUntil: p.until})
+		if !ok {
+			e.Violation("pattern-rejected: "+p.text[4:], fmt.Sprintf("the pattern %q denotes %s..%s but is rejected", p.text, fmtDays(p.since), fmtDays(p.until)), p.text)
+			bad++
+			continue
+		}
+		w := map[string]any{"file": text, "period": p.text, "denotes": fmtDays(p.since) + ".." + fmtDays(p.until)}
+		n++
+		tres := runRO(e, &cli.Total{FilterArgs: fa, DecimalArgs: util.DecimalArgs{Decimal: true}, WarnArgs: util.WarnArgs{NoWarn: true}, NoStyleArgs: util.NoStyleArgs{NoStyle: true}, InputFilesArgs: util.InputFilesArgs{File: files(file)}}, 1, "", "", clock)
+		if tres.Panic != nil || tres.Err != nil {
+			e.Violation("total-with-period-fails", fmt.Sprintf("klog total --period %s fails", p.text), w)
+			bad++
+			continue
+		}
+		if to, perr := parseTotalOutput(tres.Out); perr != nil || to.Total != strconv.Itoa(want) {
+			w["output"] = tres.Out
+			e.Violation("period-selects-other-days: total", fmt.Sprintf("klog total --period %s = %s minutes; the records dated inside %s..%s hold %d (one record per day around both ends, 2^k minutes each)", p.text, to.Total, fmtDays(p.since), fmtDays(p.until), want), w)
+			bad++
+			continue
+		}
+		for _, agg := range []string{"d", "w", "m", "q", "y"} {
+			n++
+			res := runRO(e, &cli.Report{AggregateBy: agg, FilterArgs: fa, DecimalArgs: util.DecimalArgs{Decimal: true}, WarnArgs: util.WarnArgs{NoWarn: true}, NoStyleArgs: util.NoStyleArgs{NoStyle: true}, InputFilesArgs: util.InputFilesArgs{File: files(file)}}, 1, "", "", clock)
+			if res.Panic != nil || res.Err != nil {
+				e.Violation("report-with-period-fails", fmt.Sprintf("klog report -a %s --period %s fails", agg, p.text), w)
+				bad++
+				break
+			}
+			firstIn := ref.DateFromDays(inDays[0])
+			firstYear := firstIn.Y
+			if agg == "w" {
+				firstYear, _ = ref.ISOWeek(firstIn.Y, firstIn.M, firstIn.D)
+			}
+			rows, grand, perr := parseReport(res.Out, agg, false, firstYear)
+			if perr != nil {
+				w["output"] = res.Out
+				e.Violation("report-output-malformed", fmt.Sprintf("klog report -a %s --period %s: %s", agg, p.text, perr.Error()), w)
+				bad++
+				break
+			}
+			var wantKeys []string
+			for _, dd := range inDays {
+				k, _ := periodKey(agg, ref.DateFromDays(dd))
+				if len(wantKeys) == 0 || wantKeys[len(wantKeys)-1] != k {
+					wantKeys = append(wantKeys, k)
+				}
+			}
+			var gotKeys []string
+			sum := 0
+			for _, row := range rows {
+				gotKeys = append(gotKeys, row.key)
+				if len(row.values) > 0 {
+					sum += row.values[0]
+				}
+			}
+			if grand[0] != want || sum != want || fmt.Sprint(gotKeys) != fmt.Sprint(wantKeys) {
+				w["output"] = res.Out
+				e.Violation("period-selects-other-days: report -a "+agg, fmt.Sprintf("klog report -a %s --period %s: rows %v add up to %d, grand total %d; the records inside %s..%s hold %d minutes and fall into the buckets %v", agg, p.text, gotKeys, sum, grand[0], fmtDays(p.since), fmtDays(p.until), want, wantKeys), w)
+				bad++
+				break
+			}
+		}
+		e.Count("period_patterns_viewed_through_total_and_report", 1)
 	}
 	return n
 }
